@@ -23,10 +23,12 @@ def SameReg (w w' : World) : Prop :=
 
 theorem PInv.congrReg {w w' : World} (hp : PInv ex fr w) (hc : SameReg w w')
     (hfb : ∀ x, ¬ ex x → (w'.proc x).blocked ≠ fr x → procAw w x = [] ∧ evAw w x = [])
-    (hw : w'.evWaiters = w.evWaiters)
-    (he : ∀ e' ∈ w'.ev.pending, e'.item.a = aProc ∨ e'.item.a = aEvent → ∃ e ∈ w.ev.pending, e.key = e'.key ∧ e.item = e'.item)
-    (hei : EvInv w'.ev) : PInv ex fr w' where
-  ei := hei
+    (hw : w'.evWaiters = w.evWaiters) (hev : w'.ev = w.ev) : PInv ex fr w' where
+  ei := by rw [hev]; exact hp.ei
+  oh := by
+    intro e he ha p hb hx h hh
+    rw [hev] at he ⊢
+    exact hp.oh e he ha p hb hx h (by rw [mem_awaits_event, ← (hc p).2.1, ← mem_awaits_event]; exact hh)
   ap := fun p => by rw [(hc p).1]; exact hp.ap p
   ae := fun p => by rw [(hc p).2.1]; exact hp.ae p
   ar := fun p h => by rw [(hc p).1, (hc p).2.1]; exact hp.ar p (by rw [← (hc p).2.2.2]; exact h)
@@ -38,30 +40,20 @@ theorem PInv.congrReg {w w' : World} (hp : PInv ex fr w) (hc : SameReg w w')
     rw [mem_awaits_event, (hc q).2.1, ← mem_awaits_event]; exact hp.e1 h l q (by rw [← hw]; exact hm) hq hx
   en := by rw [hw]; exact hp.en
   op := by
-    intro e' he' ha p hb hx
-    obtain ⟨e, hem, _, hi⟩ := he e' he' (Or.inl ha)
-    obtain ⟨q, h1, h2⟩ := hp.op e hem (by rw [hi]; exact ha) p (by rw [hi]; exact hb) hx
+    intro e he' ha p hb hx
+    rw [hev] at he'
+    obtain ⟨q, h1, h2⟩ := hp.op e he' ha p hb hx
     exact ⟨q, by rw [mem_awaits_proc, (hc p).1, ← mem_awaits_proc]; exact h1, by rw [(hc q).2.2.1]; exact h2⟩
   oe := by
-    intro e' he' ha p hb hx
-    obtain ⟨e, hem, _, hi⟩ := he e' he' (Or.inr ha)
-    obtain ⟨h, h1, h2⟩ := hp.oe e hem (by rw [hi]; exact ha) p (by rw [hi]; exact hb) hx
+    intro e he' ha p hb hx
+    rw [hev] at he'
+    obtain ⟨h, h1, h2⟩ := hp.oe e he' ha p hb hx
     exact ⟨h, by rw [mem_awaits_event, (hc p).2.1, ← mem_awaits_event]; exact h1,
       by unfold evWaitersOf at *; rw [hw]; exact h2⟩
   up := by
-    intro a ha b hb haa hba hbb p hbp hx
-    obtain ⟨a0, ha0, hka, hia⟩ := he a ha (Or.inl haa)
-    obtain ⟨b0, hb0, hkb, hib⟩ := he b hb (Or.inl hba)
-    have : a0 = b0 := hp.up a0 ha0 b0 hb0 (by rw [hia]; exact haa) (by rw [hib]; exact hba) (by rw [hia, hib]; exact hbb)
-      p (by rw [hia]; exact hbp) hx
-    exact HashHeap.eq_of_key_eq hei.part.keysNodup ha hb (by rw [← hka, ← hkb, this])
+    rw [hev]; exact hp.up
   ue := by
-    intro a ha b hb haa hba hbb p hbp hx
-    obtain ⟨a0, ha0, hka, hia⟩ := he a ha (Or.inr haa)
-    obtain ⟨b0, hb0, hkb, hib⟩ := he b hb (Or.inr hba)
-    have : a0 = b0 := hp.ue a0 ha0 b0 hb0 (by rw [hia]; exact haa) (by rw [hib]; exact hba) (by rw [hia, hib]; exact hbb)
-      p (by rw [hia]; exact hbp) hx
-    exact HashHeap.eq_of_key_eq hei.part.keysNodup ha hb (by rw [← hka, ← hkb, this])
+    rw [hev]; exact hp.ue
 
 /-- changing the logical frame of processes that have no process / event registration -/
 theorem PInv.setFr {w : World} (hp : PInv ex fr w) (fr' : Pid → Option Frame)
@@ -86,7 +78,7 @@ theorem PInv.toBlocked {w : World} (hp : PInv ex fr w) (hne : ∀ x, ¬ ex x) : 
 theorem PInv.mapAwaits {w : World} (hp : PInv ex fr w) (p : Pid) (g : List Await → List Await)
     (hgp : ∀ l, (g l).filter isProcA = l.filter isProcA) (hge : ∀ l, (g l).filter isEventA = l.filter isEventA) :
     PInv ex fr (w.modProc p fun x => { x with awaits := g x.awaits }) := by
-  refine hp.congrReg ?_ ?_ rfl (fun e h _ => ⟨e, h, rfl, rfl⟩) hp.ei
+  refine hp.congrReg ?_ ?_ rfl rfl
   · intro x
     unfold procAw evAw
     rw [modProc_proc]
@@ -245,7 +237,7 @@ theorem PInv.modBlocked {w : World} (hp : PInv ex fr w) (p : Pid) (b : Option Fr
     rw [modProc_proc]; split
     · rename_i h; rw [h.1]; exact ⟨rfl, rfl, rfl, rfl⟩
     · exact ⟨rfl, rfl, rfl, rfl⟩
-  refine hp.congrReg hsr ?_ rfl (fun e h _ => ⟨e, h, rfl, rfl⟩) hp.ei
+  refine hp.congrReg hsr ?_ rfl rfl
   intro x
   rw [modProc_proc]
   split
